@@ -240,4 +240,31 @@ theorem grpc_over_http1_no_service_dispatch (w : World) (sc : Scenario) (c : Cli
   obtain ⟨o, ho, _⟩ := (svc_dispatch_iff w sc).1 h
   exact grpc_needs_http2 w sc.conf sc.req c hc hp hv o ho
 
+
+/-- **A bidirectional method needs HTTP/2**: a request for one that arrived over HTTP/1 is never validated. -/
+theorem bidi_needs_http2 (w : World) (t : TConf) (r : Req) (c : ClientForm) (m : MethodConf)
+    (hc : classifyRequest r = some c) (hm : resolveMethod t c r = .ok m) (hb : m.streamType = .bidi)
+    (hv : r.protoMajor < 2) : ∀ o, validate w t r ≠ .ok o := by
+  intro o h
+  unfold validate at h
+  simp only [hc, hm] at h
+  split at h
+  · simp at h
+  · split at h
+    · simp at h
+    · have hg : (m.streamType == StreamType.bidi && decide (r.protoMajor < 2)) = true := by simp [hb, hv]
+      simp [hg] at h
+
+/-- **A stream type the client's protocol cannot carry is rejected** (a streaming method called with a unary
+    Connect request, a unary one with a Connect streaming request): never validated. -/
+theorem unacceptable_stream_type_rejected (w : World) (t : TConf) (r : Req) (c : ClientForm) (m : MethodConf)
+    (hc : classifyRequest r = some c) (hm : resolveMethod t c r = .ok m)
+    (hs : c.acceptsStreamType m.streamType = false) : ∀ o, validate w t r ≠ .ok o := by
+  intro o h
+  unfold validate at h
+  simp only [hc, hm] at h
+  split at h
+  · simp at h
+  · simp [hs] at h
+
 end Vanguard.C18
